@@ -22,7 +22,7 @@ CHAR_OK = set("ABCDEFGHIJKLMNOPQRSTUVWXYZabcdefghijklmnopqrstuvwxyz0123456789")
 def spellings(v):
     """every spelling the README grammar / value syntax offers for integer v: list of (tag, text)"""
     if v < 0:
-        return [("dec", str(v))]
+        return [("dec", str(v)), ("dec6", "-%06d" % -v)]
     out = [("dec", str(v))]
     digits = "%X" % v
     out.append(("hex%d" % len(digits), "$" + digits))
@@ -34,6 +34,7 @@ def spellings(v):
     out.append(("bin16", "%" + format(v, "016b")))
     if v < 128 and chr(v) in CHAR_OK:
         out.append(("chr", "'" + chr(v)))
+    out.append(("dec6", "%06d" % v))          # decimal padded with zeros to six digits (kept last: callers slice the front)
     return out
 
 
